@@ -107,7 +107,7 @@ def put(g, frag, c):
         for mk in f.marks:
             mk["chain"][0][2]["firstline"] = True
         return f
-    return g.mk_directive(frag, "note" if style != "dash" else "tip", colon=(k == "colon"), style=style, nblank=nblank, tailblank=tailblank, extra=extra, ch="`")
+    return g.mk_directive(frag, "note" if not style.startswith("dash") else "tip", colon=(k == "colon"), style=style, nblank=nblank, tailblank=tailblank, extra=extra, ch="`")
 
 
 def build_struct(case):
@@ -378,7 +378,7 @@ def build_include(case):
 
 def layouts(quick):
     out = []
-    for style in ("none", "colon", "dash"):
+    for style in ("none", "colon", "dash", "colon-bad", "dash-bad"):
         for nblank in (0, 1, 2):
             if style == "none" and nblank == 2:
                 continue
